@@ -356,7 +356,7 @@ func runProperty(repo, specs, prop, tier, out string) int {
 		trusted = append(trusted, "modelling: "+k)
 	}
 	trusted = append(trusted,
-		"modelling: machine integers are mathematical integers (no overflow obligations); x509.KeyUsage is a 32-bit vector",
+		"modelling: integers are mathematical in the formulas, made exact by proof: every +, -, *, << and unary - of the functions under contract carries an overflow obligation against its Go type (int/uint = 64 bits), integer conversions wrap modulo 2^N, values read from inputs, the heap and callees are assumed within their type's range, len/cap <= MaxInt64; x509.KeyUsage is a 32-bit vector",
 		"modelling: string and []byte contents are abstract (length, equality, literals distinct)",
 		"modelling: time.Time is an integer instant; zone and monotonic reading dropped",
 		"modelling: append always reallocates; no interior aliasing between different parameters",
